@@ -387,7 +387,7 @@ impl Clone for Natural {
         self.shl = source.shl;
         if self.ptr == DANGLING {
             if source.ptr != DANGLING {
-                let slice = std::ptr::slice_from_raw_parts(source.ptr.as_ptr(), self.len as usize);
+                let slice = std::ptr::slice_from_raw_parts(source.ptr.as_ptr(), source.len as usize);
                 // SAFETY: `source.ptr` is not dangling, thus the pointer is
                 // valid and we have shared access to the slice
                 let clone: *mut [u64] = Box::into_raw(unsafe { &*slice }.into());
